@@ -20,7 +20,7 @@ import vlib
 
 BASE = 1000
 FAR = 1 << 20
-KINDS = {"INIT": 1, "IACK": 2, "CECHO": 10, "CACK": 11, "DATA": 0, "SACK": 3, "FWD": 192, "GSACK": 253}
+KINDS = {"INIT": 1, "IACK": 2, "CECHO": 10, "CACK": 11, "DATA": 0, "SACK": 3, "FWD": 192, "GSACK": 253, "ZSACK": 254}
 
 DEFAULT_CFG = {"rto_initial_ms": 50, "rto_min_ms": 50, "rto_max_ms": 200, "max_hold_ms": 300}
 DEADLINE_MS = 4000  # 20 x rto_max
@@ -31,7 +31,8 @@ MAX_CONFIRM = 6     # liveness verdicts re-run per check run
 
 def write_mc_cfg(path, *, chans="Chans1", msgs="MsgsA12", init_a="{0, 14}", init_b="{0, 14}", mode="set",
                  budget=0, deviations="{}", invariants=None, properties=None, emit=False, fair=False,
-                 max_rtx=3, win=2, constraint=None, props='{"C01", "C12", "C13"}', rwnd=9, delay_sack="FALSE"):
+                 max_rtx=3, win=2, constraint=None, props='{"C01", "C12", "C13"}', rwnd=9, delay_sack="FALSE",
+                 action_constraint=None):
     inv = invariants if invariants is not None else ["TypeOK", "PrefixDelivery", "OneToOne", "OpenOnce",
                                                      "OpenBeforeMessage", "ConsecutiveTsn", "WindowRespected", "NewDataWithinWindow"]
     prop = properties if properties is not None else (["SetupIdempotent"] + (["EventuallyDelivered"] if fair else []))
@@ -60,7 +61,8 @@ CONSTANTS
             f.write("PROPERTIES " + " ".join(prop) + "\n")
         if constraint:
             f.write(f"CONSTRAINT {constraint}\n")
-        f.write(f"ACTION_CONSTRAINT {'EmitSched' if emit else 'NoEmit'}\nCHECK_DEADLOCK FALSE\n")
+        ac = action_constraint or ('EmitSched' if emit else 'NoEmit')
+        f.write(f"ACTION_CONSTRAINT {ac}\nCHECK_DEADLOCK FALSE\n")
 
 
 def tlc_mc(ck, label, timeout=600, workers=8, sched_sink=None, **kw):
@@ -86,7 +88,9 @@ def concrete(f):
     """TLC's FaultRec -> the address the proxy uses: a SACK that carried gap blocks in the model is addressed
     as the n-th gap-SACK of its direction (robust against the number of plain SACKs before it)"""
     g = dict(f)
-    if g.get("k") == "SACK" and g.get("g", 0) > 0:
+    if g.get("k") == "SACK" and g.get("z", 0) > 0:
+        g["k"], g["o"] = "ZSACK", g["z"]
+    elif g.get("k") == "SACK" and g.get("g", 0) > 0:
         g["k"], g["o"] = "GSACK", g["g"]
     if g.get("ak") == "SACK" and g.get("at", 0) > 0:
         pass  # released after the first SACK that acknowledges at least `at` chunks
@@ -473,6 +477,42 @@ def confirm_liveness(ck, pid, scenarios, bad):
         else:
             ck.notes.append(f"stall of scenario {sc['id']} did not reproduce ({fails}/3): not reported")
     return keep
+
+
+def gen_window_schedules(ck, tier):
+    """closing-window schedules: the budgeted model with a 2-chunk receive window, four chunks to send, losses of
+    A's DATA and delayed / late-duplicated SACKs of B (budget 2; liveness checked on the same run)"""
+    path = os.path.join(ck.dir, f"sched_win_{tier}_{os.getpid()}.ndjson")
+    res = tlc_mc(ck, "fifo_window", mode="fifo", budget=2, fair=True, msgs="MsgsA22", init_a="{14}", init_b="{0}", win=3,
+                 rwnd=2, action_constraint="EmitWindowSched", sched_sink=path, timeout=900)
+    vlib.tlc_ok(res, "fifo closing window")
+    ck.add_tlc(res, "fifo/closing window (rwnd 2 chunks, liveness + DATA-loss x SACK-delay pairs)")
+    return schedules_from(path)
+
+
+def window_scenarios(scheds, rng, idle_ms=0, limit=40, seed=0):
+    """the model's 4 chunks become a small leading message and 30 equal ones (more than the 2 KiB window holds);
+    a loss of the leading chunk is repeated three times (the code's tail-loss probe and fast retransmit repair a
+    single loss before the window closes); 'acknowledges all 4 chunks' becomes 'acknowledges all 31' """
+    out = []
+    nmsg = 30
+    for i, f in enumerate(sample(scheds, limit, seed)):
+        g = []
+        for x in f:
+            y = dict(x)
+            if y["k"] == "DATA" and y["kind"] == "drop":
+                for k in range(3):
+                    g.append(dict(y, o=k + 1))
+                continue
+            if y.get("ak") == "SACK" and y.get("at", 0) >= 4:
+                y["at"] = nmsg + 1
+            g.append(y)
+        size = rng.choice([300, 500, 700])
+        msgs = [{"from": "A", "sid": 1, "len": 10}] + [{"from": "A", "sid": 1, "len": size} for _ in range(nmsg)]
+        msgs += [{"from": "A", "sid": 1, "len": 5, "phase": 2}, {"from": "B", "sid": 1, "len": 5, "phase": 2}]
+        out.append(scenario(f"zw{i:03d}", g, [chan(1)], msgs, cfg={"rwnd": rng.choice([1536, 2048, 2560, 3072])},
+                            idle_ms=idle_ms, deadline_ms=DEADLINE_MS))
+    return out
 
 
 def sample(lst, n, seed):
